@@ -1,5 +1,6 @@
 """C08 — segmentation: correspondence (split_sms / split_sms_udh / UCS2 codec) and the
 independent-receiver predicate."""
+import asyncio
 from vlib import Case, nats, hexs, exc_name
 from spec import gsm as spec
 
@@ -251,7 +252,30 @@ def session_segments_case(rng, forced=None):
               service_type=rng.choice(('', 'CMT', 'WAP')), protocol_id=rng.choice((0, 0x7F)),
               priority_flag=rng.choice((0, 1, 3)), registered_delivery=rng.choice((0, 1, 17)),
               esm_class=(0x40 if udh else 0) | rng.choice((0, 3, 0x80, 0x83, 0x04)))
+    # what the application does while the Sender is at work on this message: nothing; or its sending hook takes its time
+    # (1.2 s per PDU - a throttled or rate-limited sender waits like that between segments) and the message carries relative
+    # times; or the hook, having seen the first PDU go out, re-targets the message object for its next use
+    app = rng.choice(('idle', 'idle', 'slow', 'reuse'))
+    if forced and len(forced) > 4:
+        app = forced[4]
+    from datetime import timedelta
+    if app == 'slow':
+        kw['validity_period'] = timedelta(hours=1)
+        kw['schedule_delivery_time'] = timedelta(minutes=10)
     m = SubmitSm(**kw)
+    seen_first = []
+
+    async def on_sending(msg_, pdu_):
+        if getattr(msg_, 'log_id', '') != m.log_id:
+            return
+        if app == 'slow':
+            await asyncio.sleep(1.2)
+        elif app == 'reuse' and not seen_first:
+            seen_first.append(1)
+            await asyncio.sleep(0.05)
+            m.service_type = 'XYZ'
+            m.protocol_id = 0x33
+            m.destination = PhoneNumber('999', TON.NATIONAL, NPI.ISDN)
     n_own = len(params)
     # the Sender task has handled another message before (of the other alphabet / the other segmentation method, as it
     # happens): what it did for that one must not show in this one
@@ -270,7 +294,8 @@ def session_segments_case(rng, forced=None):
     if forced and len(forced) > 3:
         want_ref = forced[3]
     ref_start = None if want_ref is None else (want_ref - 1 - (1 if prev_kind not in ('none', 'plain') else 0)) % 256
-    obs = c06.batch(batch, 'gsm0338', ref_start=ref_start)
+    obs = c06.batch(batch, 'gsm0338', ref_start=ref_start, on_sending=None if app == 'idle' else on_sending,
+                    settle={'idle': 0.002, 'slow': 40.0, 'reuse': 1.0}[app])
     obs = obs[len(batch) - 1:] if obs and len(obs) >= len(batch) else []
     fail = None
     written = obs[0]['written'] if obs else []
@@ -286,15 +311,18 @@ def session_segments_case(rng, forced=None):
                 break
         if fail is None:
             for k, g in enumerate(segs):
-                if (g['src_addr'], g['dst_addr'], g['src'], g['dst']) != (m.source.number.encode(), m.destination.number.encode(),
-                                                                       (int(m.source.ton), int(m.source.npi)),
-                                                                       (int(m.destination.ton), int(m.destination.npi))):
+                if (g['src_addr'], g['dst_addr'], g['src'], g['dst']) != (
+                        kw['source'].number.encode(), kw['destination'].number.encode(),
+                        (int(kw['source'].ton), int(kw['source'].npi)), (int(kw['destination'].ton), int(kw['destination'].npi))):
                     fail = 'segment %d carries other addressing than the message' % (k + 1)
-                elif (g['service_type'], g['pid'], g['prio'], g['reg']) != (m.service_type.encode(), kw['protocol_id'],
+                elif (g['service_type'], g['pid'], g['prio'], g['reg']) != (kw['service_type'].encode(), kw['protocol_id'],
                                                                           kw['priority_flag'], kw['registered_delivery']):
                     fail = 'segment %d carries other options than the message' % (k + 1)
                 elif g['esm'] & 0x3F != kw['esm_class'] & 0x3F:
                     fail = 'segment %d: esm_class %02x, message %02x' % (k + 1, g['esm'], kw['esm_class'])
+                elif (g['sched'], g['valid']) != ((b'000000001000000R', b'000000010000000R') if app == 'slow' else (b'', b'')):
+                    fail = 'segment %d carries schedule_delivery_time %r / validity_period %r, the message has %s' % (
+                        k + 1, g['sched'], g['valid'], '10 minutes / 1 hour (relative)' if app == 'slow' else 'none')
                 own = [(t, v) for t, v in g['tlvs'] if t not in SAR_TAGS]
                 want = []
                 for q in params:
@@ -370,9 +398,9 @@ def session_segments_case(rng, forced=None):
                         got += t
                     if fail is None and got != text:
                         fail = 'reassembled text differs from the text submitted (%d vs %d characters)' % (len(got), len(text))
-    line = '# session-segments udh=%d gsm=%d n=%d params=%d prev=%s' % (udh, gsm, n, n_own, prev_kind)
+    line = '# session-segments udh=%d gsm=%d n=%d params=%d prev=%s app=%s' % (udh, gsm, n, n_own, prev_kind, app)
     return Case(line, line, ('session-seg', udh, gsm, min(len(written), 4), n_own, prev_kind), fail,
-                {'op': 'session-seg', 'udh': udh, 'gsm': gsm, 'n': n, 'previous message': prev_kind, 'reference drawn': want_ref,
+                {'op': 'session-seg', 'udh': udh, 'gsm': gsm, 'n': n, 'previous message': prev_kind, 'application meanwhile': app, 'reference drawn': want_ref,
                  'note': 'random text; re-run the check with the same seed'})
 
 
@@ -388,6 +416,8 @@ def generate(rng, tier):
             # the message that draws reference 255, and the one after the wrap
             for rs in (255, 0):
                 yield session_segments_case(rng, (udh, gsm, rng.choice(('none', 'udh-gsm')), rs))
+            for app in ('slow', 'reuse'):
+                yield session_segments_case(rng, (udh, gsm, 'none', None, app))
     refs = (0, 1, 255, 256, 65535)
     # (function, gsm?, ref-width) -> (single limit in cells, chunk size in cells)
     confs = []
